@@ -389,8 +389,9 @@ def reverseComplement (m : Msa) : Res :=
 /-! ## esl_msa_FlushLeftInserts -/
 
 /-- one row of `for (a = 1, b = 1; a <= alen; a++) {...}`. `a` = columns consumed so far, `out` = `ax[i][1..b-1]`, the part
-    already written. The C loop writes in place, but `b <= a` throughout, so a write never lands on a cell that has
-    not been read yet; the loop is therefore modelled as producing `out` left to right:
+    already written. The C loop writes in place (`flushIP` below is that loop on the buffer itself); `b <= a` throughout, so
+    a write never lands on a cell that has not been read yet (`flushIP_is_flushRow`); this is the loop producing `out`
+    left to right:
     consensus column: `for (; b < a; b++) ax[b] = gap;` then `ax[b++] = ax[a]`; insert column: skip a gap, else
     `ax[b++] = ax[a]`. -/
 def flushGo (abc : Abc) : (rf row : Bytes) → (a : Nat) → (out : Bytes) → Bytes
@@ -405,6 +406,31 @@ def flushGo (abc : Abc) : (rf row : Bytes) → (a : Nat) → (out : Bytes) → B
 def flushRow (abc : Abc) (rf : Bytes) (alen : Nat) (row : Bytes) : Bytes :=
   let out := flushGo abc (rf.take alen) (row.take alen) 0 []
   out ++ List.replicate (alen - out.length) abc.xGap
+
+/-- `for (; b < a; b++) ax[b] = gap` (0-based cells) -/
+def gapFill (g : UInt8) : (n : Nat) → (b : Nat) → Bytes → Bytes
+  | 0, _, buf => buf
+  | n+1, b, buf => gapFill g n (b+1) (buf.set b g)
+
+/-- the row loop on the buffer itself: `a`, `b` are the 0-based counterparts of the C counters; every read `ax[a]` is a read
+    of the CURRENT buffer -/
+def flushIP (abc : Abc) (rf : Bytes) (alen : Nat) : (fuel a b : Nat) → Bytes → Bytes
+  | 0, _, b, buf => gapFill abc.xGap (alen - b) b buf
+  | fuel+1, a, b, buf =>
+    if a ≥ alen then gapFill abc.xGap (alen - b) b buf
+    else if !abc.cIsGap (rf.getD a 0) then
+      let buf1 := gapFill abc.xGap (a - b) b buf
+      let b1 := if b < a then a else b
+      flushIP abc rf alen fuel (a+1) (b1+1) (buf1.set b1 (buf1.getD a 0))
+    else if abc.xIsGap (buf.getD a 0) then flushIP abc rf alen fuel (a+1) b buf
+    else flushIP abc rf alen fuel (a+1) (b+1) (buf.set b (buf.getD a 0))
+
+/-- `esl_msa_FlushLeftInserts` with the row loop run IN PLACE on each `ax[i]` (what the driver executes) -/
+def flushLeftInsertsIP (m : Msa) : Res :=
+  match m.rf, m.abc with
+  | none, _ => { msa := m, st := .einval, exc := true }
+  | some _, none => { msa := m, st := .fault }
+  | some rf, some a => { msa := { m with rows := m.rows.map (flushIP a rf m.alen (m.alen + 1) 0 0) }, st := .ok }
 
 def flushLeftInserts (m : Msa) : Res :=
   match m.rf, m.abc with
